@@ -1,4 +1,4 @@
-import MJ.Model.DepthHop
+import MJ.Model.DepthAmb
 /-! Line driver for C11: `<shape> <limit> <budget> <thread>` → `<case>\t<status>\t<hw_depth>\t<hw_native>`
     as predicted by the depth-accounting model (`MJ.Depth.predict*`). -/
 open MJ.Depth
@@ -54,14 +54,18 @@ def hopsOf : PredH → Nat
   | .recursion m => m.hopsHW
   | .other _ => 0
 
-/-- `budget <label> <stack> <root> <hopBytes> <H> <macro> <caller> <include> <block> <super> <mask>`:
-    evaluates `budgetOK` / `frameLowerOK` (the hypotheses of `stack_budget_holds` /
-    `frame_constants_tied`) on measured values; `mask` = five characters `1`/`0`, the kinds `P` -/
+/-- `budget <label> <stack> <root> <hopBytes> <H> <macro> <caller> <include> <block> <super> <mask> [<leaf>]`:
+    evaluates `budgetOK` / `frameLowerOK` / `budgetLeafOK` / `stackerOK` (the hypotheses of
+    `stack_budget_holds`, `frame_constants_tied`, `stack_budget_holds_leaf` = `h_budget` of `C11_main`,
+    `stacker_configuration`) on measured values; `mask` = five characters `1`/`0`, the kinds `P` -/
 def handleBudget (f : List String) : String :=
+  let (f, leafS) := match f with
+    | [a, b, c, d, e, g, h, i, j, k, l, leaf] => ([a, b, c, d, e, g, h, i, j, k, l], leaf)
+    | f => (f, "0")
   match f with
   | [label, stack, root, hopB, h, m, c, i, b, sup, mask] =>
-    match [stack, root, hopB, h, m, c, i, b, sup].map String.toNat? with
-    | [some stack, some root, some hopB, some h, some m, some c, some i, some b, some sup] =>
+    match [stack, root, hopB, h, m, c, i, b, sup, leafS].map String.toNat? with
+    | [some stack, some root, some hopB, some h, some m, some c, some i, some b, some sup, some leaf] =>
       let bytes : Kind → Nat
         | .macroCall => m | .callerCall => c | .includeTpl => i | .blockCall => b | .superCall => sup
       let bits := mask.toList
@@ -71,7 +75,9 @@ def handleBudget (f : List String) : String :=
         | .superCall => bits[4]? == some '1'
       let ok := budgetOK stack root hopB h bytes P
       let lower := (allKinds.filter P).all (fun k => decide (MJ.Gen.evalImplArrayBytes ≤ bytes k))
-      s!"budget\t{label}\t{ok}\t{rho (withHops hopB h bytes) P}\t{projected root hopB h bytes P}\t{stack}\t{lower}\t{MJ.Gen.evalImplArrayBytes}"
+      let okLeaf := budgetLeafOK stack root hopB h leaf bytes P
+      let stk := stackerOK hopB h leaf bytes
+      s!"budget\t{label}\t{ok}\t{rho (withHops hopB h bytes) P}\t{projected root hopB h bytes P}\t{stack}\t{lower}\t{MJ.Gen.evalImplArrayBytes}\t{okLeaf}\t{stk}"
     | _ => s!"budget\t{label}\tbad-input"
   | _ => "budget\t?\tbad-input"
 
